@@ -331,6 +331,14 @@ func hostileState(r *rand.Rand) ([]byte, string) {
 				copy(k, []byte{0, 0, 0, 0, 0, 0, 0, byte(2 + r.Intn(2))}) // a peer name the post-check asks for
 			}
 			v := vlib.RandBytes(r, vl)
+			if typ == 2 && vl >= 16 && r.Intn(2) == 0 {
+				// a connection event whose value announces field lengths it does not have
+				big := []uint64{1 << 20, 1 << 34, 1 << 40, 1 << 63, 1<<64 - 1, 5}
+				v = append(v[:16], 1, 0, 2)
+				v = append(v, uv(big[r.Intn(len(big))])...)
+				v = append(v, vlib.RandBytes(r, r.Intn(6))...)
+				kind = "state-conn-length-inflated"
+			}
 			if vl >= 16 { // plausible times
 				copy(v, []byte{0, 0, 0, 0, 0, 0, 0, byte(r.Intn(9))})
 				copy(v[8:], []byte{0, 0, 0, 0, 0, 0, 0, byte(r.Intn(9))})
@@ -687,7 +695,9 @@ func main() {
 		case i%4 == 1:
 			raw, kind = append(uv(uint64(r.Intn(1<<16))), vlib.RandBytes(r, r.Intn(16))...), "raw-snappy-length"
 		default:
-			raw = vlib.RandBytes(r, r.Intn(40))
+			// random bytes behind a header that announces at most 512 KiB (random headers announce up
+			// to 4 GiB each: the one deliberate bomb above is enough to show F14d)
+			raw = append(uv(uint64(r.Intn(1<<19))), vlib.RandBytes(r, r.Intn(40))...)
 		}
 		which := i % 3
 		class, alloc := guarded(func() error {
